@@ -7,7 +7,9 @@ from .base import Check
 
 # JSON theorems (IcingaProofs/C20/JsonLemmas.lean re-exported in IcingaProofs/C20.lean)
 JSON_THEOREMS = ["json_string_roundtrip", "surrogate_roundtrip", "json_roundtrip", "int_codec_lawful", "json_roundtrip_int",
-                 "decode_message_only_objects", "decode_message_roundtrip", "message_model_meets_spec", "recv_message_only_objects"]
+                 "utf8_roundtrip", "sanitise_fixes_wellformed", "sanitise_wellformed", "sanitise_idempotent", "sanitise_model_meets_spec",
+                 "json_roundtrip_bytes", "json_roundtrip_dict", "json_decode_encode_any", "canon_last_wins",
+                 "decode_message_only_objects", "decode_message_roundtrip", "message_model_meets_spec", "recv_message_only_objects", "decode_nesting_unbounded"]
 
 
 class C20(Check):
@@ -31,9 +33,11 @@ class C20(Check):
                   "are tied to the code by running the real functions on the same inputs and diffing every observation; the specification predicates are "
                   "evaluated on the implementation's own observations")
     level_note = ("Trusted: Lean kernel (+ propext, Classical.choice, Quot.sound), sampled correspondence (exhaustive chunkings of short streams, random otherwise), "
-                  "harness/driver. Assumed and fuzzed bit-exactly, not proved: nlohmann's float printer + strtod round trip (number codec law). Not modelled: "
-                  "UTF-8 sanitising (ValidateUTF8), whitespace/duplicate-key handling of the JSON parser (compared where the model accepts), Boost.Asio/OpenSSL, "
-                  "memory safety of the C++ (exercised only).")
+                  "harness/driver. Assumed and fuzzed bit-exactly, not proved: nlohmann's float printer + strtod round trip (number codec law). Modelled and proved as well: "
+                  "the UTF-8 layer (utf8cpp validate_next/replace_invalid as Utility::ValidateUTF8 uses them; round trip composed down to bytes) and Dictionary's "
+                  "sorted-map semantics (encode order, duplicate keys: last wins). Not modelled: JSON whitespace and raw non-ASCII inside JSON text (compared where the "
+                  "model accepts), Boost.Asio/OpenSSL, memory safety of the C++ (exercised: every operation in a forked child, thorough tier additionally under "
+                  "ASan+UBSan builds of the codec sources). Known finding F-C20a: unbounded nesting depth overflows the coroutine stack.")
     trusted_base = [
         "modelled, not verified: NetString::WriteStringToStream, both TLS ReadStringFromStream variants (one model: the statements are identical), the buffered "
         "ReadStringFromStream with StreamReadContext::FillFromStream/DropData (a fill = one chunk appended or EOF), JsonRpc::DecodeMessage and one iteration of "
@@ -41,7 +45,11 @@ class C20(Check):
         "(ensure_ascii), JsonDecode restricted to whitespace-free text",
         "number formatting/lexing (nlohmann dump of integers/doubles, strtod) is a codec parameter with the law parse(fmt x) = x: proved for the integer instance, "
         "assumed for binary64 and checked bit-exactly on every generated number (the sign of zero is not part of the value: -0.0 prints as 0)",
-        "strings are Unicode scalar sequences in the model; the UTF-8 layer and Utility::ValidateUTF8 are exercised by the harness only",
+        "the UTF-8 layer is modelled (sanitise = utf8::replace_invalid with U+FFFD, strict decoder as the format) and compared byte for byte with Utility::ValidateUTF8; "
+        "the JSON text decoder model accepts only the ASCII, whitespace-free language the encoder emits (plus a little more): on other texts it is silent and only the "
+        "specification clauses (no crash, DecodeMessage only objects) are evaluated",
+        "thorough tier: json/netstring/stream/fifo/stdiostream/utility/jsonrpc .cpp are rebuilt with -fsanitize=address,undefined and the corpus plus the quick generator "
+        "run through that harness (synchronous TLS reader only: ASan cannot follow exceptions on Boost coroutine stacks); a sanitizer report = clause no_crash",
         "a stream delivers to each FillFromStream call a chunk or end-of-file (FIFO never reports EOF: then the loop is compared up to the last need-data)",
     ]
     assumptions = [
@@ -121,6 +129,38 @@ class C20(Check):
         by = runner.ddmin([], by, lambda bs: self._fails(harness, driver, [mk(bs)], want))
         return [mk(by)]
 
+    @staticmethod
+    def _classify(case_lines):
+        """Narrow classifier of a minimised crash witness: the operation's JSON text nests >= 4000 containers."""
+        for l in case_lines:
+            op = runner.strip_obs(l)
+            if op.startswith("X "):
+                parts = op.split(" ", 2)
+                op = parts[2] if len(parts) == 3 else ""
+            w = op.split()
+            if not w or w[0] not in ("K", "D", "M", "T"):
+                continue
+            hx = w[1] if w[0] in ("K", "D") else (w[3] if len(w) > 3 else "")
+            try:
+                data = bytes.fromhex("" if hx == "-" else hx)
+            except ValueError:
+                continue
+            depth = best = 0
+            for b in data:
+                if b in (0x5B, 0x7B):
+                    depth += 1
+                    best = max(best, depth)
+                elif b in (0x5D, 0x7D):
+                    depth -= 1
+            if best >= 4000:
+                return "c20_deep_nesting_stack_overflow"
+        return ""
+
+    def matches_known(self, entry, finding):
+        cls = entry.get("classifier")
+        return (finding.kind == "spec" and finding.what.startswith("spec:C20:no_crash:" + cls)
+                and self._classify(finding.case_lines) == cls)
+
     def _collect(self, lines, save, harness, driver, res, tag):
         """Turn the driver's SPECFAIL/MISMATCH/BADLINE lines into shrunk findings."""
         bad = [l for l in lines if l.startswith("BADLINE")]
@@ -130,18 +170,24 @@ class C20(Check):
         for l in lines:
             if l.startswith("SPECFAIL"):
                 kv = core.parse_kv(l)
-                if kv["clause"] in seen:
-                    continue
-                seen.add(kv["clause"])
                 case = self._line(save, int(kv["line"]))
+                # crashes are told apart by the class of their input, so that a known one never hides a new one
+                cls = self._classify([case]) if kv["clause"] == "no_crash" else ""
+                key = (kv["clause"], cls)
+                if key in seen:
+                    continue
+                seen.add(key)
                 small = self._shrink(harness, driver, case, "SPECFAIL", save, int(kv["line"]))
                 self._fails(harness, driver, small, "SPECFAIL")
-                shown = open(self.work("shrink.out")).read().splitlines()
+                shown = [x for x in open(self.work("shrink.out")).read().splitlines() if x.strip()]
+                if not any(x.startswith("X ") for x in shown) and kv["clause"] == "no_crash":
+                    shown = [case]      # did not reproduce in isolation: keep the original observation
                 detail = {"driver": l}
                 if tag:
                     detail["sanitizer_report"] = self._san_report()
                     detail["harness"] = harness
-                res.spec_failures.append(runner.Finding("spec", "spec:C20:" + kv["clause"] + tag, shown, detail))
+                what = "spec:C20:" + kv["clause"] + (":" + cls if cls else "") + tag
+                res.spec_failures.append(runner.Finding("spec", what, shown, detail))
         seen = set()
         for l in lines:
             if l.startswith("MISMATCH") and len(seen) < 3:
@@ -222,7 +268,7 @@ class C20(Check):
         exe = self.build_asan()
         for f in glob.glob(self.work("asan", "report.*")):
             os.remove(f)
-        self._env = dict(os.environ,
+        self._env = dict(os.environ, C20_NO_CORO="1",
                          ASAN_OPTIONS="abort_on_error=1:detect_leaks=0:detect_container_overflow=0:detect_stack_use_after_return=0:"
                                       "handle_segv=0:handle_abort=0:log_path=" + self.work("asan", "report"),
                          UBSAN_OPTIONS="print_stacktrace=1:halt_on_error=1:log_path=" + self.work("asan", "report"))
@@ -254,15 +300,7 @@ class C20(Check):
         import glob, os
         for f in sorted(glob.glob(os.path.join(core.ROOT, "corpus", "C20", "*.ops"))):
             out = self._run([harness, "ops", f], driver, self.work("corpus.out"))
-            for l in out:
-                if l.startswith(("SPECFAIL", "MISMATCH", "BADLINE")):
-                    kind = "spec" if l.startswith("SPECFAIL") else "corr"
-                    shown = open(self.work("corpus.out")).read().splitlines()
-                    n = int(core.parse_kv(l).get("line", "1"))
-                    case = shown[n - 1:n]
-                    fd = runner.Finding(kind, ("spec:C20:" + core.parse_kv(l).get("clause", "?")) if kind == "spec" else "corpus:" + os.path.basename(f),
-                                        case, {"driver": l, "corpus": f})
-                    (res.spec_failures if kind == "spec" else res.corr_failures).append(fd)
+            self._collect(out, self.work("corpus.out"), harness, driver, res, "")
         save = self.work("gen.out")
         lines = self._run([harness, "gen", "--seed", str(seed), "--tier", tier], driver, save)
         stats = {}
@@ -281,7 +319,8 @@ class C20(Check):
                     "subnormals, 1e300), numbers and strings alone, hostile JSON text (mutations, invalid UTF-8, nesting to 10000), framed streams with random "
                     "chunkings (payloads to 60 KB, limits), hostile netstring streams (bad length fields, truncation, mutation), TLS reads (sync + coroutine) of valid, "
                     "over-limit and hostile streams with random write sizes over a real TLS connection; JsonRpc::DecodeMessage on null/scalars/arrays/objects/malformed "
-                    "payloads, directly and through ReadMessage+DecodeMessage+use of the result over TLS as the receive loop does. Every operation runs in a forked "
+                    "payloads, directly and through ReadMessage+DecodeMessage+use of the result over TLS as the receive loop does; Utility::ValidateUTF8 on hostile byte strings "
+                    "(every error class of utf8cpp, range boundaries, random bytes) and values whose strings/keys are ill-formed UTF-8. Every operation runs in a forked "
                     "child: a crash/abort/hang of the real code becomes `X <signal> <operation>` = clause no_crash, shrunk and replayable. evaluations = reader calls + codec round trips; a case "
                     "counts as non-trivial (distinct by hash of its operation line, counted by the Lean driver) when it produced an item/error/non-EOF outcome, "
                     "an escape, a container or a fraction")
